@@ -14,14 +14,21 @@ struct Case {
   id: String,
   files: Vec<(String, String)>,
   rules: Vec<Value>, // empty = use `run -p foo($A) -r bar($A)`
+  /// statement mode: `run -p 'foo($A);' -r 'bar($A);'` so that two matches can touch without a byte between them
+  stmt_mode: bool,
 }
 
 fn stmt(nested: bool, j: usize) -> String {
   if nested { format!("foo(foo(x{j}));") } else { format!("foo(x{j}é);") }
 }
 
-fn doc_body(edits: &[Value], crlf: bool) -> String {
-  // edits: [[pos, del], ...]; two edits whose ranges intersect are rendered as a nested match
+fn touching(a: &Value, b: &Value) -> bool {
+  a[0].as_u64().unwrap() + a[1].as_u64().unwrap() == b[0].as_u64().unwrap()
+}
+
+fn doc_body(edits: &[Value], crlf: bool, stmt_mode: bool) -> String {
+  // edits: [[pos, del], ...]; two edits whose ranges intersect are rendered as a nested match; in statement mode two
+  // edits that touch (the second starts at the byte where the first ends) are rendered as statements without a byte between them
   let nl = if crlf { "\r\n" } else { "\n" };
   let mut out = String::new();
   let mut k = 0;
@@ -31,8 +38,10 @@ fn doc_body(edits: &[Value], crlf: bool) -> String {
       a[0].as_u64().unwrap() + a[1].as_u64().unwrap() > b[0].as_u64().unwrap()
     };
     out.push_str(&stmt(nested, k));
-    out.push_str(nl);
     k += if nested { 2 } else { 1 };
+    if !(stmt_mode && k < edits.len() && touching(&edits[k - 1], &edits[k])) {
+      out.push_str(nl);
+    }
   }
   out.push_str("keep(1);");
   out.push_str(nl);
@@ -47,22 +56,23 @@ fn cases_from_vectors(vectors: &str, thorough: bool, rng: &mut Rng) -> Vec<Case>
   for (i, v) in all.iter().enumerate().filter(|(i, _)| i % stride == 0) {
     let docs = v["docs"].as_array().unwrap();
     let crlf = rng.chance(1, 4);
+    let stmt_mode = docs.iter().any(|d| d.as_array().unwrap().windows(2).any(|w| touching(&w[0], &w[1])));
     let mut files = vec![("lib/untouched.js".to_string(), "keep(0);\n".to_string()), ("notes.txt".to_string(), "foo(1)\n".to_string())];
     if docs.len() == 1 {
-      files.push(("src/t.js".to_string(), doc_body(docs[0].as_array().unwrap(), crlf)));
+      files.push(("src/t.js".to_string(), doc_body(docs[0].as_array().unwrap(), crlf, stmt_mode)));
     } else {
       let tags = ["<script>", "<script lang=\"ts\">"];
       let mut html = String::from("<html><body>\n");
       for (k, d) in docs.iter().enumerate() {
         html.push_str(tags[k % 2]);
         html.push('\n');
-        html.push_str(&doc_body(d.as_array().unwrap(), crlf));
+        html.push_str(&doc_body(d.as_array().unwrap(), crlf, stmt_mode));
         html.push_str("</script>\n");
       }
       html.push_str("<p>foo(text)</p>\n</body></html>\n");
       files.push(("src/t.html".to_string(), html));
     }
-    out.push(Case { id: format!("c18v{i}"), files, rules: vec![] });
+    out.push(Case { id: format!("c18v{i}"), files, rules: vec![], stmt_mode });
   }
   out
 }
@@ -74,18 +84,24 @@ fn fixed_cases() -> Vec<Case> {
   let r4 = json!({"id": "r4", "language": "Css", "severity": "warning", "message": "m", "rule": {"pattern": "color: red"}, "fix": "color: blue"});
   let r5 = json!({"id": "r5", "language": "Html", "severity": "warning", "message": "m", "rule": {"pattern": "<b>$$$A</b>"}, "fix": "<i>$$$A</i>"});
   let r6 = json!({"id": "r6", "language": "TypeScript", "severity": "warning", "message": "m", "rule": {"pattern": "foo($A)"}, "fix": "bar($A)"});
+  let r7 = json!({"id": "r7", "language": "JavaScript", "severity": "warning", "message": "m", "rule": {"pattern": "debugger;"}, "fix": ""});
+  let r8 = json!({"id": "r8", "language": "JavaScript", "severity": "warning", "message": "m", "rule": {"pattern": "var $A = $B;"}, "fix": "let $A = $B;"});
+  let r9 = json!({"id": "r9", "language": "JavaScript", "severity": "warning", "message": "m", "rule": {"pattern": "foo($A);"}, "fix": "qux($A);"});
   vec![
     // three and four documents in one file, each with an accepted fix
-    Case { id: "scan-html-three-docs".into(), files: vec![("q.html".into(), "<html><body><b>x</b>\n<style>\na { color: red }\n</style><script>\nfoo(1);\n</script>\n<b>y é</b></body></html>\n".into()), ("r.html".into(), "<p>none</p>\n".into())], rules: vec![r1.clone(), r4.clone(), r5.clone()] },
-    Case { id: "scan-html-four-docs".into(), files: vec![("s.html".into(), "<html><body>\n<script lang=\"ts\">\nfoo(2);\n</script>\n<b>x</b>\n<style>\na { color: red }\n</style><script>\nfoo(1);\n</script></body></html>\n".into())], rules: vec![r1.clone(), r4.clone(), r5.clone(), r6.clone()] },
+    Case { id: "scan-html-three-docs".into(), files: vec![("q.html".into(), "<html><body><b>x</b>\n<style>\na { color: red }\n</style><script>\nfoo(1);\n</script>\n<b>y é</b></body></html>\n".into()), ("r.html".into(), "<p>none</p>\n".into())], rules: vec![r1.clone(), r4.clone(), r5.clone()], stmt_mode: false },
+    Case { id: "scan-html-four-docs".into(), files: vec![("s.html".into(), "<html><body>\n<script lang=\"ts\">\nfoo(2);\n</script>\n<b>x</b>\n<style>\na { color: red }\n</style><script>\nfoo(1);\n</script></body></html>\n".into())], rules: vec![r1.clone(), r4.clone(), r5.clone(), r6.clone()], stmt_mode: false },
     // unused suppression comments are findings with a fix of their own (the comment is deleted); they sit before,
     // between and after other fixable findings
     Case { id: "scan-unused-suppressions".into(), files: vec![("u.js".into(), "// ast-grep-ignore: r3\nfoo(1);\nkeep(2); // ast-grep-ignore: r1\nfoo(3);\n// ast-grep-ignore\nnothing();\nfoo(9); // ast-grep-ignore: r1\n// ast-grep-ignore\nfoo(10);\n".into()),
-                                                              ("v.js".into(), "foo(4); // ast-grep-ignore: r3\n".into())], rules: vec![r1.clone(), r3.clone()] },
-    Case { id: "scan-two-rules".into(), files: vec![("a.js".into(), "foo(foo(1)); keep(2);\nfoo(3);\n".into()), ("b.js".into(), "nothing();\n".into())], rules: vec![r1.clone(), r2.clone(), r3.clone()] },
-    Case { id: "scan-html-js-css".into(), files: vec![("p.html".into(), "<html><style>\na { color: red }\n</style><script>\nfoo(1);\n</script></html>\n".into())], rules: vec![r1.clone(), r4.clone()] },
-    Case { id: "scan-crlf".into(), files: vec![("w.js".into(), "foo(1);\r\nfoo(\"é🦀\");\r\n".into())], rules: vec![r1.clone()] },
-    Case { id: "scan-no-match".into(), files: vec![("n.js".into(), "keep();\n".into())], rules: vec![r1] },
+                                                              ("v.js".into(), "foo(4); // ast-grep-ignore: r3\n".into())], rules: vec![r1.clone(), r3.clone()], stmt_mode: false },
+    Case { id: "scan-two-rules".into(), files: vec![("a.js".into(), "foo(foo(1)); keep(2);\nfoo(3);\n".into()), ("b.js".into(), "nothing();\n".into())], rules: vec![r1.clone(), r2.clone(), r3.clone()], stmt_mode: false },
+    Case { id: "scan-html-js-css".into(), files: vec![("p.html".into(), "<html><style>\na { color: red }\n</style><script>\nfoo(1);\n</script></html>\n".into())], rules: vec![r1.clone(), r4.clone()], stmt_mode: false },
+    Case { id: "scan-crlf".into(), files: vec![("w.js".into(), "foo(1);\r\nfoo(\"é🦀\");\r\n".into())], rules: vec![r1.clone()], stmt_mode: false },
+    // fixes that touch: the second edit starts at the byte where the first ends (minified text, two rules on neighbouring statements)
+    Case { id: "scan-touching".into(), files: vec![("m.js".into(), "var a = 1;debugger;var b = 2;foo(1);\nfoo(2);foo(3);foo(\"é\");debugger;\n".into()), ("m.css".into(), "a{color: red;color: red}\n".into())],
+           rules: vec![r1.clone(), r4.clone(), r7.clone(), r8.clone(), r9.clone()], stmt_mode: false },
+    Case { id: "scan-no-match".into(), files: vec![("n.js".into(), "keep();\n".into())], rules: vec![r1], stmt_mode: false },
   ]
 }
 
@@ -109,7 +125,11 @@ fn run_case(c: &Case, scratch: &str, idx: usize) -> Vec<Value> {
     p.write(path, content.as_bytes());
   }
   let base: Vec<String> = if c.rules.is_empty() {
-    vec!["run".into(), "-p".into(), "foo($A)".into(), "-r".into(), "bar($A)".into()]
+    if c.stmt_mode {
+      vec!["run".into(), "-p".into(), "foo($A);".into(), "-r".into(), "bar($A);".into()]
+    } else {
+      vec!["run".into(), "-p".into(), "foo($A)".into(), "-r".into(), "bar($A)".into()]
+    }
   } else {
     p.config(None);
     for r in &c.rules {
